@@ -26,7 +26,9 @@ PLAN = {
         unit("side", "TestC09OldFile", 150, 2000, seed_off=600)]},
     "C10": {"level": "exploration", "units": [unit("side", "TestC10", 600, 12000, replay="TestReplayC10")]},
     "C11": {"level": "exploration", "units": [unit("cfgh", "TestC11", 600, 10000, replay="TestReplayC11", shrinktime="30s")]},
-    "C12": {"level": "exploration", "units": [unit("side", "TestC12", 1000, 6000, replay="TestReplayC12")]},
+    "C12": {"level": "exploration", "units": [
+        unit("side", "TestC12", 1000, 6000, replay="TestReplayC12"),
+        unit("side", "TestC12Concurrent", 100, 1500, seed_off=400)]},
     "C13": {"level": "fault_enumeration", "units": [unit("side", "TestC13", 250, 3000, replay="TestReplayC13")]},
     "C14": {"level": "exploration", "units": [unit("side", "TestC14", 1000, 15000, replay="TestReplayC14")]},
     "C15": {"level": "exploration", "units": [
